@@ -1,6 +1,6 @@
 (* gpmodel: reads one s-expression case per line on stdin, runs the extracted
    Coq model on it and prints one s-expression result per line. *)
-let handlers : (Sexp.t -> Sexp.t option) list ref = ref [ Fam_cli.handle; Fam_fs.handle; Fam_discover.handle; Fam_section.handle; Fam_engine.handle; Fam_augment.handle; Fam_comments.handle; Fam_astdiff.handle ]
+let handlers : (Sexp.t -> Sexp.t option) list ref = ref [ Fam_cli.handle; Fam_fs.handle; Fam_discover.handle; Fam_section.handle; Fam_engine.handle; Fam_augment.handle; Fam_comments.handle; Fam_astdiff.handle; Fam_loader.handle ]
 
 let () =
   let rec loop () =
